@@ -419,8 +419,6 @@ class Walker:
         for s, cur in self.ev(load, st):
             for s2, v in self.ev(n.value, s):
                 val = self.mk_bin(op, cur, v)
-                if isinstance(n.target, ast.Name) and s2.loops:
-                    self.emit(s2, "accum", n, name=n.target.id, op=op, addend=v, prev=cur)
                 out.extend(self.assign(n.target, val, s2, n, aug=op, addend=v))
         return out
 
@@ -672,6 +670,15 @@ class Walker:
     # ------------------------------------------------------------------ assignment
     def assign(self, t, v, st: State, node, aug=None, addend=None) -> List[State]:
         if isinstance(t, ast.Name):
+            prev = st.env.get(t.id)
+            if st.loops and prev is not None and prev != v:
+                # accumulation  x = x (op) e  in either spelling (x += e  or  x = x + e)
+                if v[0] == "nary" and v[1] in ("+", "*", "|", "&", "^") and prev in v[2]:
+                    rest = [x for x in v[2] if x != prev] if v[2].count(prev) == 1 else None
+                    if rest:
+                        self.emit(st, "accum", node, name=t.id, op=v[1], addend=rest[0] if len(rest) == 1 else ("nary", v[1], tuple(rest)), prev=prev)
+                elif v[0] == "bin" and v[2] == prev and v[1] in ("-", "//", "%", "<<", ">>"):
+                    self.emit(st, "accum", node, name=t.id, op=v[1], addend=v[3], prev=prev)
             st.env[t.id] = v
             self.emit(st, "bind", node, name=t.id, value=v)
             return [st]
